@@ -143,7 +143,8 @@ def execute(objs, w, c, state, verbose=False):
             s = s[:i] + NUC[(NUC.index(s[i]) + 1) % 4] + s[i + 1:]
         if len(s) < k:
             s = s + "A" * k
-        a = gen.counting(cur_rows, 6 * len(s) * (1 + 16 * k * k) + 64)
+        import repair_common
+        a = gen.counting(cur_rows, repair_common.read_budget(len(s), k))
         cands, st = dsw.repair_dna(s, a, v0, k, has_indel=True)
         return [gen.enc_groups(cands), [int(st[0]), int(bool(st[1])), int(st[2]), int(st[3])]], \
             enc_call(24, s2c(s), gen.enc_acc(cur_rows), v0, k, [], 1, 1000)
